@@ -32,6 +32,10 @@ def make_exception(cls_name, tag):
         return KeyError('injected ' + tag)
     if cls_name == 'TypeError':
         return TypeError('injected ' + tag)
+    if cls_name == 'IndexError':
+        return IndexError('injected ' + tag)
+    if cls_name == 'AttributeError':
+        return AttributeError('injected ' + tag)
     if cls_name == 'ArithmeticError':
         return ArithmeticError('injected ' + tag)
     if cls_name == 'AssertionError':
